@@ -322,7 +322,6 @@ R.contract("Node.receive_cea", params={"self": "Node", "conn": "PeerConnection",
                      "dict:self._peer_waiting_answer", "*Event.flag", "*StoppableThread.stopped", "*Socket.closed"],
            trusted=True, props=[],
            note="ASSUMED here; raises for a CEA lacking Origin-Host / Result-Code (AttributeError), sends nothing")
-R.assume("assumed contracts (read from the code, not verified yet): Node.receive_cer, Node.receive_cea as used by _receive_message")
 
 R.macro("dup_cond", ["n", "m"],
         "hasattr(m, 'origin_host') and is_req(m) and bit4(m.header.command_flags) == 1 and "
@@ -350,9 +349,10 @@ R.contract("Node._receive_message", params={"self": "Node", "conn": "PeerConnect
                      "implies(msg.header.command_code == 257 or msg.header.command_code == 280 or "
                      "msg.header.command_code == 282, no_delivery(self))")],
            raises=[],
-           ghost_modifies=["conn._write_msg_queue.g_put", "self.g_dlv_app", "self.g_dlv_msg", "self.g_ans_app", "self.g_ans_msg"],
+           ghost_modifies=["conn._write_msg_queue.g_put", "self.g_dlv_app", "self.g_dlv_msg", "self.g_ans_app", "self.g_ans_msg",
+                           "conn.g_close_calls", "conn.g_close_reason"],
            modifies=["dict:self._sent_answers", "dict:self._origin_waiting_answer", "*deque:int", "dict:self._peer_waiting_answer",
-                     "dict:self._app_waiting_answer",
+                     "dict:self._app_waiting_answer", "dict:self.socket_peers", "*list:Peer",
                      "*dict:Dict[int,float]", "*PeerCounters.cer", "*PeerCounters.cea", "*PeerCounters.dwr", "*PeerCounters.dwa",
                      "*PeerCounters.dpr", "*PeerCounters.dpa", "*PeerCounters.requests", "*PeerCounters.answers",
                      "*PeerConnection.state", "*PeerConnection._last_dwr", "conn.node_name", "conn.auth_application_ids",
